@@ -488,6 +488,10 @@ func TestC17_Signed(t *testing.T) {
 			}
 		}
 		muts := []string{"", "", "content", "signature", "other_key_sig", "other_key_cert"}
+		if len(s.content) > 0 {
+			// the object is genuine; the verifier is handed other content (none, empty, a prefix, an extension)
+			muts = append(muts, "verify_nil", "verify_empty", "verify_prefix", "verify_extended")
+		}
 		if s.withAttrs {
 			muts = append(muts, "attr", "digest_attr")
 		}
@@ -509,6 +513,16 @@ func TestC17_Signed(t *testing.T) {
 					c = append(append([]byte{}, s.content...), 'z')
 				}
 				p7.Content = c
+			}
+			switch s.mut {
+			case "verify_nil":
+				p7.Content = nil
+			case "verify_empty":
+				p7.Content = []byte{}
+			case "verify_prefix":
+				p7.Content = append([]byte{}, s.content[:rapid.IntRange(0, len(s.content)-1).Draw(t, "prefix")]...)
+			case "verify_extended":
+				p7.Content = append(append([]byte{}, s.content...), 0)
 			}
 			verr = p7.Verify()
 		}); p != nil {
